@@ -32,7 +32,7 @@ THEOREMS = [
  'C01.ignored_silent', 'C01.bare_prefix_silent', 'C01.bare_prefix_never_owner', 'C01.dispatch_requires_not_ignored', 'C01.ignore_flag_ignored', 'C01.ignores_db_ignored',
  'C01.channel_ignored_silent', 'C01.received_dispatch_requires', 'C01.channel_ban_ignored', 'C01.trusted_never_ignored',
  'C01.flood_dispatch_requires', 'C01.flood_punishment_ignores',
- 'C01.chancap_argument_scoped',
+ 'C01.chancap_argument_scoped', 'C01.voice_others_needs_op',
  'C01.config_write_guard', 'C01.config_channel_each_checked', 'C01.config_channel_stops', 'C01.readonly_never_written', 'C01.refusals_raise',
  'C01.defaults_have_antiowner', 'C01.defaults_drop_owner', 'C01.defaults_antiowner_not_owner', 'C01.shipped_defaults_ok',
  'C01.required_present', 'C01.required_rows_guarded', 'C01.inventory_names_valid', 'C01.plugin_names_canonical', 'C01.callgraph_ok', 'C01.defaults_mutators_ok', 'C01.gate_shape_ok',
@@ -1005,6 +1005,79 @@ def explore(ctx, b, w, table, required, n_extra):
                 ircdb.channels.setChannel(CHAN, cobj2)
         base_snap[0] = snapshot(b)
 
+    # ================= Channel.voice / devoice: #chan,voice reaches only the caller himself =================
+    if 'Channel' in have:
+        uv = ircdb.users.newUser(); uv.name = 'vvoice'; uv.addCapability(CHAN + ',voice'); uv.addHostmask('joe!j@voice.host'); ircdb.users.setUser(uv)
+        botpfx = irc.prefix if getattr(irc, 'prefix', None) and '!' in irc.prefix else '%s!bot@bot.host' % NICK
+        irc.feedMsg(b.ircmsgs.join(CHAN, prefix=botpfx))
+        irc.feedMsg(b.ircmsgs.IrcMsg(':server 353 %s = %s :@%s joe alice bob cop reg' % (NICK, CHAN, NICK)))
+        irc.feedMsg(b.ircmsgs.IrcMsg(':server 366 %s %s :End of /NAMES list.' % (NICK, CHAN)))
+        bot.drain(b)
+        VCALLERS = [('voice-only', 'joe!j@voice.host', 'joe'), ('chanop', ROLES['chanop'], 'cop'), ('plain', ROLES['plain'], 'reg')]
+        VLISTS = [[], ['joe'], ['alice'], ['joe', 'alice'], ['alice', 'bob', 'joe'], ['alice', 'joe'], ['Joe'], ['bob', 'Joe'], ['joe', 'joe'],
+                  ['cop'], ['cop', 'alice'], ['reg'], ['reg', 'bob']]
+        v_specs = {c_: row_spec('Channel', (c_,), loaded[('Channel', (c_,))]) for c_ in ('voice', 'devoice') if ('Channel', (c_,)) in loaded}
+        try:
+            for cmdname in sorted(v_specs):
+                for label, pr, nick in VCALLERS:
+                    for nl in (VLISTS if (ctx.thorough or label == 'voice-only') else VLISTS[:6]):
+                        for tgt in ((CHAN, NICK) if (ctx.thorough or label == 'voice-only') else (CHAN,)):
+                            words = ([] if tgt == CHAN else [CHAN]) + nl
+                            full = ('@' if tgt == CHAN else '') + 'channel %s %s' % (cmdname, ' '.join(words))
+                            mchan = CHAN if tgt == CHAN else None
+                            spec, ae = v_specs[cmdname]
+                            last_dump[0] = None
+                            send_db()
+                            lines.append('ignored\t' + wire.enc(pr)); pend.append(None)
+                            Obs.execute = None
+                            before = snapshot(b)
+                            out = deliver(b, pr, tgt, full)
+                            changed = snap_diff(before, snapshot(b))
+                            modes = [m for m in out if m.command == 'MODE']
+                            touched = sorted(set(n2 for m in modes for n2 in m.args[2:]))
+                            cls = classify([m for m in out if m.command != 'MODE'])
+                            if modes:
+                                impl = 'modes:' + ','.join(touched)
+                            elif cls[0] == 'nocap':
+                                impl = 'nocap:' + cls[1]
+                            else:
+                                impl = 'stopped:' + cls[0]
+                            # by construction: only a #c op may touch anybody but himself; voice-only may touch himself; plain nobody
+                            others = [n2 for n2 in touched if b.ircutils.toLower(n2) != b.ircutils.toLower(nick)]
+                            ok = True; msg = ''
+                            if label != 'chanop' and (others or (label == 'plain' and touched) or changed):
+                                ok = False
+                                msg = '%s (%s) runs %r: the bot sent %r (nicks other than the caller: %r), state changed=%r' % (
+                                    label, pr, full, [str(m).strip() for m in modes], others, changed)
+                            c = Case({'op': 'voice', 'caller': label, 'prefix': pr, 'target': tgt, 'text': full}, impl=impl, oracle_ok=ok, oracle_msg=msg,
+                                     kind='voice', tags=['voice', 'voice:' + label, 'voice:' + impl.split(':')[0]] + (['oracle:deny'] if label != 'chanop' and any(b.ircutils.toLower(n2) != nick for n2 in nl) else []))
+                            cases.append(c)
+                            lines.append('invoke\t%s\t%s\t%s\t%s\t%s\t%d\t%s' % (wire.enc(pr), wire.enc_opt(mchan), wire.enc('Channel'), wire.enc_list(['channel', cmdname]),
+                                                                                   enc_spec(spec), 1 if ae else 0, wire.enc_list(words)))
+                            holder = {}
+                            def fill_inv(o, ign, holder=holder):
+                                holder['inv'] = o; holder['ign'] = ign
+                                return None
+                            pend.append((Case({'op': 'voice-aux'}, kind='voice-aux'), fill_inv))
+                            lines.append('voice\t%s\t%s\t%s\t%s' % (wire.enc(pr), wire.enc(nick), wire.enc(CHAN), wire.enc_list(nl)))
+                            def fill_v(o, ign, holder=holder):
+                                if holder['ign'].startswith('1') or holder['ign'].startswith('crash'):
+                                    return 'stopped:silent'
+                                f = holder['inv'].split('\t'); i2 = f.index('|'); g = f[:i2]; oc = f[i2 + 1:]
+                                if g[0] == 'denied': return 'nocap:' + wire.dec(g[1])
+                                if g[0] != 'allow': return 'stopped:gate-' + g[0]
+                                if oc[0] == 'noCapability': return 'nocap:' + wire.dec(oc[1])
+                                if oc[0] == 'crash': return 'stopped:crash'
+                                # (the unmodelled converters haveOp / nickInChannel consume the nicks: they all are in the channel and the bot is op)
+                                v = o.split('\t')
+                                if v[0] == 'modes': return 'modes:' + ','.join(sorted(set(wire.dec_list(v[1]))))
+                                if v[0] == 'noCapability': return 'nocap:' + wire.dec(v[1])
+                                return 'stopped:' + v[0]
+                            pend.append((c, fill_v))
+        finally:
+            irc.feedMsg(b.ircmsgs.part(CHAN, prefix=botpfx)); bot.drain(b)
+        base_snap[0] = snapshot(b)
+
     # ================= refusals raised from inside a command body (errorNoCapability(..., Raise=True) call sites) =================
     # metamorphic oracle: a call that is refused with a no-capability error under the shipped message must, with the
     # message configured away, still be refused (nothing changes, nothing is said): the refusal is a raise, not a text
@@ -1832,6 +1905,9 @@ def fill_model(clp):
             continue
         c, f = p
         c.model = 'bad-op' if o == 'bad-op' else f(o, last_ign)
+        if c.kind.endswith('-aux'):
+            c.model = None
+            continue
         reconcile(c)
     return cases
 
